@@ -306,6 +306,8 @@ def write_summary(F, callee_path, _depth=0):
             for p in res["paths"]:
                 if p.kind != "return":
                     continue
+                if contradictory(p, res["interned"]):
+                    continue          # e.g. `get_index(len - 1)` None after `get_index_of(k)` was Some
                 v = p.ret
                 var = v[2] if v and v[0] == "agg" else None
                 wrote = bool(effective_writes(F, p, _depth + 1)) if _depth < 3 else any(e[0] == "write" and e[1] == ("self",) for e in p.effects)
@@ -492,6 +494,26 @@ def lin_ctx(p, interned):
         except Exception:
             pass
     return c
+
+
+def contradictory(p, interned):
+    """Are the path's comparison constraints linearly inconsistent (an infeasible path the explorer could not prune)?
+    Sound: True only when a non-negative combination of its facts yields 1 <= 0."""
+    import linear
+    import itertools
+    lin, facts = lin_ctx(p, interned)
+
+    def absurd(f):
+        return f[1] >= 1 and all(v >= 0 for v in f[0].values())      # (non-negative atoms) sum >= 1, yet required <= 0
+    fs = facts[:24]
+    for k in (1, 2, 3):
+        for sub in itertools.combinations(fs, k):
+            tot = ({}, 0)
+            for f in sub:
+                tot = linear.lin_add(tot, f)
+            if absurd(tot):
+                return True
+    return False
 
 
 def decide(p, interned, a, op, b):
